@@ -20,10 +20,22 @@ from harness.rigs import isolation as iso
 from harness.rigs import isolation_sched as isd
 
 MANIFEST = {
-    "text": "DEEPENED (see design_notes/C04.md): every episode of an episode-scheduled environment is compared with an environment built "
-            "directly from that episode's scenario (C04_skeleton_scheduled_episode_fresh; shipped and generated scenario folders); every run-time "
-            "write of a readable global must be unconditional (C04_gen_writes_unconditional, C04_conditional_write_counterexample) and precede "
-            "the reads of the same operation (C04_gen_write_order + call-event monitor). "
+    "text": "ROUND 3 (see design_notes/C04.md): F-10 REPAIRED (fix3-C04: NMNE settings are state of each game's own network) — the inventory "
+            "obligation is now FULL (C04_gen_globals_safe: no inventory entry is `shared`; C04_gen_no_readable_global; C04_gen_nmne_per_game keeps "
+            "the two class attributes unwritten), and C04_skeleton_isolated_partial excludes exactly F-11: every schedule of construct / "
+            "reset(seed) / the code's own step of any number of instances leaves each trajectory equal to the solo one provided the instances that "
+            "are stepped draw nothing from the process-global generators. THE SEED ARGUMENT is modelled as Optional[int]: `set_random_seed` and the "
+            "guard of `reset` are regenerated from source and proved equal to the model FOR EVERY ARGUMENT (C04_gen_seed_handling; a truthiness test "
+            "fails at 0, C04_truthy_seed_counterexample), and the episode-freshness theorem is stated for the CALL reset(seed=s) for every natural s "
+            "(C04_reset_any_seed_episode_fresh); reset() without a seed is fresh modulo the generator state (C04_unseeded_reset_fresh_modulo_rng). "
+            "Every differential (dirty history, schedule freshness, interleaving) resets with 0, 1, the configured seed, 2^32-1, a random seed and "
+            "no argument, and compares the state of the generators after every operation. "
+            "Earlier rounds: every episode of an episode-scheduled environment is compared with an environment built "
+            "directly from that episode's scenario (C04_skeleton_scheduled_episode_fresh; shipped and generated scenario folders, now also varying "
+            "io_settings, `defaults` durations and airspace capacities); every run-time write of a readable global must be unconditional and reached "
+            "unconditionally from from_config (C04_gen_writes_unconditional, C04_conditional_write_counterexample) and precede the reads of the same "
+            "operation (C04_gen_write_order; C04_gen_no_reader_before_write: static call graph from everything reset / __init__ / from_config call "
+            "before the write resp. before the seeding, cross-checked against monitored runs). "
             "Lean 4 proof, for a generic process model (any number of environment instances, each with environment-level and per-game "
             "state, one store of process globals, operations = straight-line programs), that under the read/write discipline of the "
             "classification (import-only globals never written; re-written-before-read / RNG globals read only after the same operation "
@@ -31,18 +43,20 @@ MANIFEST = {
             "equal to its solo run (C04_instances_independent, C04_interleaving: induction over the schedule with the frame rule C04_frame), "
             "and that a reset which does not read the old game makes any two histories indistinguishable from the reset on "
             "(C04_reset_is_fresh, C04_history_irrelevant). Tie: the SHARED-STATE INVENTORY (every ClassVar / class-level mutable attribute / "
-            "module-level mutable object, every run-time write site, every use of the global RNGs, every `global` statement, pydantic mutable "
-            "defaults) is regenerated from source into Gen/SharedState.lean and checked against a committed role table "
-            "(C04_gen_functions_known, C04_gen_classification, C04_gen_skeleton_matches, C04_gen_globals_safe_partial, "
-            "C04_gen_rng_safe_partial). PARTIAL: the code violates the discipline in `step` (F-10 NMNE class attributes, F-11 global RNG): "
-            "the full statements are kept as C04_FullSkeletonIsolated / C04_FullGenGlobalsSafe / C04_FullGenRngSafe with proved "
+            "module-level mutable object, every run-time write site incl. setattr, every use of the global RNGs, every `global` statement, pydantic "
+            "mutable defaults) is regenerated from source into Gen/SharedState.lean and checked against a committed role table "
+            "(C04_gen_functions_known, C04_gen_classification, C04_gen_skeleton_matches, C04_gen_rng_safe_partial). PARTIAL: the code violates the "
+            "discipline in `step` (F-11 global RNG): the full statements are kept as C04_FullSkeletonIsolated / C04_FullGenRngSafe with proved "
             "counterexamples; that the real step/reset behave like their skeleton is validated by the differential rig only.",
-    "note": "C04-specific: the model abstracts an operation to its global access pattern; within one operation the order write-before-read "
-            "is extracted statically for from_config (calls before the assignment) and observed dynamically (profile monitor), not proved for "
-            "the whole call graph. File/terminal output (SIM_OUTPUT, pcap loggers) is outside the claim.",
-    "technique": "Lean 4 non-interference proof over a mini imperative language; regenerated shared-state inventory; differential env rig "
-                 "(dirty history, interleaved instances with channel attribution, object-identity disjointness, scheduler copies, "
-                 "episode-schedule freshness against directly constructed environments, operation-order monitor); rig sharded over processes",
+    "note": "C04-specific: the model abstracts an operation to its global access pattern; the static call graph is by name (self type followed "
+            "through constructors, registered lambdas deferred, unknown receivers resolved within the caller's import closure) — callbacks run "
+            "by third-party code (pydantic validators, logging formatters), getattr and dunder protocol methods are seen only by the monitor. "
+            "File/terminal output (SIM_OUTPUT, pcap loggers) is outside the claim. known_findings.json still lists F-10 as open (not editable "
+            "from this check); findings/C04.json carries the `fixed` entry and the rig reports a reappearance under another channel name.",
+    "technique": "Lean 4 non-interference proof over a mini imperative language; regenerated shared-state inventory, seed handling and static "
+                 "call graph; differential env rig (dirty history over a seed family, interleaved instances incl. a third instance and close, with "
+                 "channel attribution, object-identity disjointness, scheduler copies, episode-schedule freshness against directly constructed "
+                 "environments, operation-order / seeding monitor); rig sharded over processes",
     "design_ref": "5/C04",
 }
 MODULES = ["PrimaiteModel.Props.C04"]
@@ -144,6 +158,24 @@ def _aug(cfg: Dict, rng: Rng, n: int) -> Dict:
         return cfg
 
 
+AIR_ACTIONS = {"node-network-service-recon", "node-nmap-ping-scan", "node-nmap-port-scan", "node-session-remote-login", "node-send-remote-command"}
+
+
+def _aug_air(cfg: Dict, rng: Rng, n: int) -> Dict:
+    """generated action map for a WIRELESS scenario in which most entries make a node talk to another node (scans, remote sessions), so that
+    frames cross the air in most steps and the per-network frequency capacities matter"""
+    big = _aug(cfg, rng, 8 * n)
+    pa = envrig.proxy_agent_cfg(big)
+    amap = (pa or {}).get("action_space", {}).get("action_map")
+    if not amap:
+        return big
+    ents = [v for _, v in sorted(amap.items())]
+    talk = [v for v in ents if v["action"] in AIR_ACTIONS][:n]
+    rest = [v for v in ents if v["action"] not in AIR_ACTIONS and v["action"] != "do-nothing"][: max(4, n // 4)]
+    pa["action_space"]["action_map"] = {i: v for i, v in enumerate([{"action": "do-nothing", "options": {}}] + talk + rest)}
+    return big
+
+
 # ---------------------------------------------------------------------------------------------- import-only globals at run time
 def _resolve(name: str):
     mod, _, path = name.partition(":")
@@ -216,6 +248,7 @@ def classvars_at_runtime() -> List[str]:
 def _prepare_replay():
     global _READ_GLOBALS
     import primaite.game.game  # noqa: F401
+    iso.nmne_class_attrs_at_import()
     if not _READ_GLOBALS:
         _READ_GLOBALS = read_globals(x_ss.build())
     iso.pin_opaque_widths()
@@ -427,6 +460,7 @@ def run(ctx: Ctx):
                             "global_statements": len(inv.global_stmts)}
     import primaite.game.game  # noqa: F401  (loads every class)
     import primaite.session.environment  # noqa: F401
+    iso.nmne_class_attrs_at_import()      # captured here, before any environment exists in this process or in a forked worker
     # run-time cross-check of the extractor: every ClassVar that pydantic / the interpreter knows is in the inventory
     rt = classvars_at_runtime()
     missing = [n for n in rt if n not in inv.entries]
@@ -663,17 +697,14 @@ def _do_dirty(ctx: Rec, unit: dict):
 def _do_pair(ctx: Rec, unit: dict):
     """(b) interleaved instances"""
     cfg_a, cfg_b = unit["cfg_a"], unit["cfg_b"]
+    # the sizes of the action spaces are read off the scenarios: constructing environments here, before the differential's own normalised
+    # runs, would leave their traces in the process (that is exactly what the differential is looking for)
     try:
-        ea, eb = scen.make_env(cfg_a), scen.make_env(cfg_b)
-        sa, sb = int(ea.action_space.n), int(eb.action_space.n)
+        sa = len(envrig.proxy_agent_cfg(cfg_a)["action_space"]["action_map"])
+        sb = len(envrig.proxy_agent_cfg(cfg_b)["action_space"]["action_map"])
     except Exception as e:
-        ctx.notes.append(f"pair {unit['label']}: not constructible: {type(e).__name__}: {str(e)[:100]}")
+        ctx.notes.append(f"pair {unit['label']}: no action map: {type(e).__name__}: {str(e)[:100]}")
         return
-    for e in (ea, eb):
-        try:
-            e.close()
-        except Exception:
-            pass
     fam_a = iso.seed_family(iso.configured_seed(cfg_a), unit["rng"].fork("famA"))
     fam_b = iso.seed_family(iso.configured_seed(cfg_b), unit["rng"].fork("famB"))
     sched = iso.gen_schedule(unit["rng"], ctx.scale(18, 45), sa, sb, unit["b_first"], fam_a=fam_a, fam_b=fam_b)
@@ -735,7 +766,7 @@ def _pairs(ctx: Ctx, rng: Rng):
     if uc2:
         out.append(("uc2", "uc2", uc2, set_seed(uc2, 77)))          # same scenario twice: F-11 territory
     if wl and fw:
-        out.append(("wireless", "wireless-capacity-override", _aug(wl, rng.fork("pW"), 40), set_air(wl, 0.001)))
+        out.append(("wireless", "wireless-capacity-override", _aug_air(wl, rng.fork("pW"), 40), set_air(wl, 0.001)))
         out.append(("firewall-nmne-on2", "wireless", set_nmne(_aug(fw, rng.fork("pF"), 40), NMNE_ON2), wl))
     if ctx.thorough:
         uc7 = _load("uc7_config")
@@ -865,7 +896,7 @@ def _do_sched(rec: Rec, unit: dict):
             if b is None:
                 rec.notes.append(f"schedule {unit['label']}: scenario {unit['base']} missing")
                 return
-            base_cfgs = [_aug(b, rng.fork("aug"), 40)]
+            base_cfgs = [_aug_air(b, rng.fork("aug"), 40)]
         desc = isd.gen_folder(rng.fork("folder"), Path(folder), base_cfgs=base_cfgs, **unit["gen"])
         rec.count("sched:generated-folder")
         for v in desc["air"].values():
